@@ -4,7 +4,7 @@
 //! input line:  cap=<n> mt=<n|0> rmin=<ms> rmax=<ms> | <step> ...
 //!   env:<refuse|close|garbage|silent|serve>   how the peer treats connections from now on
 //!                                             (refuse = nothing listens on the port)
-//!   E D X                                     Channel::enable / disable / shutdown
+//!   E D X L                                   Channel::enable / disable / shutdown / set_decode_level
 //!   H                                         drop the (only) handle
 //!   S:<id>:<timeout_ms>                       read_holding_registers in a spawned task (completion class is logged)
 //!   hold:<n>                                  the n-th listener notification (1-based) blocks the task until `go`
@@ -13,7 +13,7 @@
 //!   waitc:<n>                                 wait until n requests have completed
 //!   done                                      wait until the channel task has ended (every handle then reports shutdown)
 //!   sleep:<ms>                                let real time pass (only used for "nothing more happens" checks)
-//! output line: <listener log>|<completions c<id>:<class> sorted>|<accepts>|<TIMEOUT at step k, if a wait did not finish>
+//! output line: <listener log>|<completions c<id>:<class> sorted>|<done|live>|<accepts>|<TIMEOUT at step k, if a wait did not finish>|<ms between consecutive notifications>
 use std::collections::HashMap;
 use std::net::SocketAddr;
 use std::sync::{Arc, Mutex};
@@ -26,6 +26,8 @@ use tokio::io::{AsyncReadExt, AsyncWriteExt};
 #[derive(Default)]
 struct Shared {
     listener: Vec<String>,
+    /// when each notification was made
+    stamps: Vec<std::time::Instant>,
     completions: Vec<(u32, String)>,
     accepts: usize,
     hold_at: Option<usize>,
@@ -55,6 +57,7 @@ impl Listener<ClientState> for Gate {
         let hold = {
             let mut c = self.ctl.lock().unwrap();
             c.listener.push(name(value));
+            c.stamps.push(std::time::Instant::now());
             if c.hold_at == Some(c.listener.len()) {
                 c.hold_at = None;
                 true
@@ -195,11 +198,12 @@ async fn run_case(line: &str) -> String {
                 }
                 true
             }
-            "E" | "D" | "X" => {
+            "E" | "D" | "X" | "L" => {
                 if let Some(ch) = channel.as_ref() {
                     let _ = match p[0] {
                         "E" => ch.enable().await,
                         "D" => ch.disable().await,
+                        "L" => ch.set_decode_level(DecodeLevel::nothing()).await,
                         _ => ch.shutdown().await,
                     };
                 }
@@ -277,14 +281,17 @@ async fn run_case(line: &str) -> String {
     let c = ctl.lock().unwrap();
     let mut comps = c.completions.clone();
     comps.sort();
+    // milliseconds between consecutive notifications (for lower bounds on announced delays only)
+    let gaps: Vec<String> = c.stamps.windows(2).map(|w| (w[1] - w[0]).as_millis().to_string()).collect();
     format!(
-        "{}|{}|{}{}|{}|{}",
+        "{}|{}|{}{}|{}|{}|{}",
         c.listener.join(" "),
         comps.iter().map(|(i, s)| format!("c{i}:{s}")).collect::<Vec<_>>().join(" "),
         if done { "done" } else { "live" },
         after,
         c.accepts,
-        failed.unwrap_or_default()
+        failed.unwrap_or_default(),
+        gaps.join(" ")
     )
 }
 
